@@ -274,7 +274,8 @@ func runC17(c *Ctx, idx int, o *Obs) {
 		}
 		inArgs, inStdin, inMode := presentTrees(c, r, "nni", lines, false)
 		o.Ev("cli_input:"+inMode, 1)
-		res := runCLI(c, inStdin, append([]string{"nni"}, inArgs...)...)
+		res, outMode := runCLIOut(c, r, inStdin, append([]string{"nni"}, inArgs...)...)
+		o.Ev("cli_output:"+outMode, 1)
 		o.Ev("cli", 1)
 		inp := strings.Join(lines, "\n")
 		if !o.Check(res.Exit == 0 && !res.Panic, "cli_nni_failed", res.brief(), inp, tag...) {
